@@ -14,6 +14,7 @@ Import ListNotations.
 Open Scope Z_scope.
 
 (** (i) the run completes exactly on the documented domain *)
+From SK Require Import Model.Cuts Proofs.ValidCuts.
 Theorem C14_completes_iff : forall d c n nan,
   expected d c n nan = Completes <->
   config_ok d c = true /\ nan = false /\ min_len d c <= n /\ scorer_ok d c = true.
@@ -106,3 +107,41 @@ Print Assumptions C14_sbs_runs.
 Print Assumptions C14_cbs_runs.
 Print Assumptions C14_mw_bandwidth_one.
 Print Assumptions C14_pelt_minimum_length.
+
+(** ---- added: statements re-derived from the lemma files by tools/append_props.py ---- *)
+Theorem C14_pelt_asks_only_valid_cuts : forall (C1 C2 : nat -> nat -> Z) (pen : Z) (m n : nat), (1 <= m)%nat -> (2 * m <= n)%nat -> (forall s e : nat, (s + m <= e)%nat -> (e <= n)%nat -> C1 s e = C2 s e) -> pelt C1 pen m (m - 1) n = pelt C2 pen m (m - 1) n.
+Proof. exact @pelt_ext_valid. Qed.
+
+Theorem C14_moving_window_asks_only_valid_cuts : forall (CS1 CS2 : nat -> nat -> nat -> Z) (b n : nat) (thr : Z) (mdi : nat), (forall t : nat, (b <= t)%nat -> (t + b <= n)%nat -> CS1 (t - b)%nat t (t + b)%nat = CS2 (t - b)%nat t (t + b)%nat) -> mw CS1 b n thr mdi = mw CS2 b n thr mdi.
+Proof. exact @mw_ext_valid. Qed.
+
+Theorem C14_sbs_asks_only_valid_cuts : forall (CS1 CS2 : nat -> nat -> nat -> Z) (m : nat) (thr : Z) (ivs : list (nat * nat)), (forall s e k : nat, In (s, e) ivs -> (s + m <= k)%nat -> (k + m <= e)%nat -> CS1 s k e = CS2 s k e) -> sbs CS1 m thr ivs = sbs CS2 m thr ivs.
+Proof. exact @sbs_ext_valid. Qed.
+
+Theorem C14_cbs_asks_only_valid_cuts : forall (LS1 LS2 : nat -> nat -> nat -> nat -> Z) (m : nat) (thr : Z) (ivs : list (nat * nat)), (forall s e a z : nat, In (s, e) ivs -> (s < a)%nat -> (a + m <= z)%nat -> (z < e)%nat -> (m <= a - s + (e - z))%nat -> LS1 s a z e = LS2 s a z e) -> cbs LS1 m thr ivs = cbs LS2 m thr ivs.
+Proof. exact @cbs_ext_valid_arith. Qed.
+
+Theorem C14_capa_asks_only_valid_cuts : forall (Sc1 Sc2 : nat -> nat -> list Z) (Sp1 Sp2 : nat -> list Z) (ac : Z) (bc : list Z) (ap : Z) (bp : list Z) (m M delay n : nat), (1 <= m)%nat -> (m <= M)%nat -> (forall s e : nat, (s + m <= e)%nat -> (e <= s + M)%nat -> (e <= n)%nat -> Sc1 s e = Sc2 s e) -> (forall t : nat, (t < n)%nat -> Sp1 t = Sp2 t) -> capa Sc1 Sp1 ac bc ap bp m M delay n = capa Sc2 Sp2 ac bc ap bp m M delay n.
+Proof. exact @capa_ext_valid_maxlen. Qed.
+
+Theorem C14_interval_cut_accepted : forall (ms : Z) (m s e n : nat), ms <= Z.of_nat m -> (s + m <= e)%nat -> (e <= n)%nat -> (1 <= m)%nat -> row_ok (Plain 2 ms) (Z.of_nat n) [Z.of_nat s; Z.of_nat e] = true.
+Proof. exact @plain2_cut_ok. Qed.
+
+Theorem C14_split_cut_accepted : forall (ms : Z) (m s k e n : nat), ms <= Z.of_nat m -> (s + m <= k)%nat -> (k + m <= e)%nat -> (e <= n)%nat -> (1 <= m)%nat -> row_ok (Plain 3 ms) (Z.of_nat n) [Z.of_nat s; Z.of_nat k; Z.of_nat e] = true.
+Proof. exact @plain3_cut_ok. Qed.
+
+Theorem C14_window_cut_accepted : forall (ms : Z) (b t n : nat), ms <= Z.of_nat b -> (b <= t)%nat -> (t + b <= n)%nat -> (1 <= b)%nat -> row_ok (Plain 3 ms) (Z.of_nat n) [Z.of_nat (t - b); Z.of_nat t; Z.of_nat (t + b)] = true.
+Proof. exact @mw_cut_ok. Qed.
+
+Theorem C14_local_cut_accepted : forall (ms : Z) (m s a z e n : nat), ms <= Z.of_nat m -> (s < a)%nat -> (a + m <= z)%nat -> (z < e)%nat -> (m <= a - s + (e - z))%nat -> (e <= n)%nat -> (1 <= m)%nat -> row_ok (Local ms) (Z.of_nat n) [Z.of_nat s; Z.of_nat a; Z.of_nat z; Z.of_nat e] = true.
+Proof. exact @local_cut_ok. Qed.
+
+Print Assumptions C14_pelt_asks_only_valid_cuts.
+Print Assumptions C14_moving_window_asks_only_valid_cuts.
+Print Assumptions C14_sbs_asks_only_valid_cuts.
+Print Assumptions C14_cbs_asks_only_valid_cuts.
+Print Assumptions C14_capa_asks_only_valid_cuts.
+Print Assumptions C14_interval_cut_accepted.
+Print Assumptions C14_split_cut_accepted.
+Print Assumptions C14_window_cut_accepted.
+Print Assumptions C14_local_cut_accepted.
